@@ -18,6 +18,8 @@ type pairOpts struct {
 	cmpEnv     bool // compare rand()/time.now() call counts per input
 	sigPrefix  string
 	sigOf      func(h *core.History, i int, aspect string) string
+	onInput    func(i int, a, b *world.InRes)
+	globals    func(s *world.Session) string // how final globals are rendered for comparison (default: without generator loop variables)
 }
 
 func runPair(h *core.History, cfgRef, cfgAlt world.SessCfg, po pairOpts, o *core.Outcome) {
@@ -38,6 +40,9 @@ func runPair(h *core.History, cfgRef, cfgAlt world.SessCfg, po pairOpts, o *core
 		if a.BudgetHit || b.BudgetHit {
 			st.Discarded = true
 			break
+		}
+		if po.onInput != nil {
+			po.onInput(i, &a, &b)
 		}
 		fk := ""
 		if e.Fault != nil {
